@@ -1,6 +1,7 @@
 SPECIFICATION Spec
 CONSTANTS
   MaxDur = 2
+  Layouts = {1, 2, 3}
 INVARIANT TypeOK
 INVARIANT InvRegistriesAgree
 INVARIANT InvPorts
@@ -9,5 +10,4 @@ INVARIANT InvTimers
 PROPERTY OnlyDocumentedTransitions
 PROPERTY TimedNotEarly
 PROPERTY TimedNotLate
-PROPERTY Completes
 CHECK_DEADLOCK FALSE
